@@ -19,7 +19,8 @@ RULE = (
     "and R's decoding equals the input (sequence for statement sequences, set for rdflib containers). "
     "Plus a sweep of frame lengths across the varint boundaries of the length prefix (frames of ~100..170, ~16290..16560 and "
     "~2^21 bytes). Plus a Hypothesis rule-based state machine over the public Stream API (enroll / triple / quad / graph with 0..3 triples / "
-    "namespace_declaration / manual flush of the flow, inferred, manual and bounded flows, both term encoders): after EVERY call "
+    "namespace_declaration / manual flush of the flow / a statement the encoder rejects, after which the caller carries on; "
+    "inferred, manual and bounded flows, both term encoders): after EVERY call "
     "the bytes written so far must be a valid prefix for R and decode to the events accepted so far. "
     "non-trivial = >=2 statements and the stream has an explicit non-zero entry id (post-eviction) or uses a zero form "
     "for prefix / name / entry id together with >=2 frames or an elision; distinct by case hash."
@@ -238,6 +239,7 @@ def replay_api_history(case, acc=None):
     conv = T.to_generic if integ == "generic" else T.to_rdflib
     canon = (lambda t: list(T.norm(t))) if integ == "generic" else (lambda t: list(T.norm(T.rdflib_canon(t))))
     flushed_all = True
+    rejected = False
 
     def emit(f):
         if f is not None:
@@ -276,14 +278,34 @@ def replay_api_history(case, acc=None):
                     iri = MACHINE_IRIS[op[2] % len(MACHINE_IRIS)]
                     stream.namespace_declaration(op[1], iri)
                     model.append(["prefix", op[1], ["iri", iri]])
+            elif kind == "bad":
+                # a statement the encoder must reject (unsupported Python object in slot op[1]); the caller carries on
+                stream.enroll()
+                terms = [machine_term(c, graph=(j == 3)) for j, c in enumerate(op[2])]
+                if integ == "rdflib":
+                    terms[0], terms[1] = ["iri", MACHINE_IRIS[0]], ["iri", MACHINE_IRIS[1]]
+                objs = [conv(t) for t in terms]
+                objs[op[1] % (3 if case["phys"] == "TRIPLES" else 4)] = object()
+                try:
+                    if case["phys"] == "TRIPLES":
+                        emit(stream.triple(tuple(objs[:3])))
+                    elif case["phys"] == "QUADS":
+                        emit(stream.quad(tuple(objs)))
+                    else:
+                        for f in stream.graph(objs[3], [tuple(objs[:3])]):
+                            emit(f)
+                except Exception:  # noqa: BLE001
+                    rejected = True
             elif kind == "flush":
                 emit(stream.flow.to_stream_frame())
         except Exception as exc:  # noqa: BLE001
+            if rejected and "cannot be used after" in str(exc):
+                continue  # the stream refuses further use after a rejected statement: allowed
             return Violation(f"C03:api-call-raises:{type(exc).__name__}", f"step {step} {op!r} raised {exc!r}", case)
         data = out.getvalue()
         if not data:
             continue
-        res = jellyref.decode(data, True, mode="prefix" if case["ns"] else "prefix")
+        res = jellyref.decode(data, True, mode="lenient-brackets" if (rejected and case["phys"] == "GRAPHS") else "prefix")
         if res.error is not None:
             return Violation(f"C03:invalid:{res.error.kind}", f"after step {step} {op!r} the bytes written are invalid: {res.error}", case)
         got = []
@@ -338,6 +360,10 @@ def machine_shard(spec, acc):
         @rule(name=st.sampled_from(["", "ex", "a"]), i=st.integers(0, 9))
         def namespace(self, name, i):
             self._do(["ns", name, i])
+
+        @rule(slot=st.integers(0, 3), terms=st.lists(code, min_size=4, max_size=4))
+        def rejected_statement(self, slot, terms):
+            self._do(["bad", slot, [list(t) for t in terms]])
 
         @rule()
         def flush(self):
